@@ -206,7 +206,7 @@ PROPS = {
         "assumptions": ["the error channel has a consumer (errors beyond the 100-slot buffer block on a ctx-guarded send, they are not dropped)",
                         "cancellation is observed at the loop head (a cancellation racing with an error send may or may not deliver that one error: Go select semantics)"],
         "level_text": "Lean theorem C20: for every finite sequence of read outcomes over the modelled error vocabulary and every cancellation point, the receiver model processes exactly the frames before its end, once each and in order, reports exactly the unknown failures and processing errors, retries transient ones silently and ends at the first broken-socket outcome or at cancellation (induction over the sequence, no length bound). The model is tied to receiver.go by running the real ReceivePackets on scripted readers/processors.",
-        "level_note": "Trusted: Lean kernel; the vocabulary of 15 error values stands for all errors (an error outside it is classified by the same two Go functions but is not modelled); timing (5 ms sleep) not modelled.",
+        "level_note": "Trusted: Lean kernel; the vocabulary of 16 error values stands for all errors (an error outside it is classified by the same two Go functions but is not modelled); timing (5 ms sleep) not modelled.",
     },
     "C19": {
         "modules": ["SxVerif.Props.C19"],
@@ -289,7 +289,7 @@ PROPS = {
     },
     "C11": {
         "modules": ["SxVerif.Props.C11"],
-        "components": ["arpcache"],
+        "components": ["arpcache", "proc"],
         "trusted_base": [
             "modelled, not verified: net.IP.String / HardwareAddr.String for 4/6-byte values, net.ParseIP for colon-free text and the ::ffff:a.b.c.d spelling (go1.23 parseIPv4Fields), net.ParseMAC (all three textual forms), bufio.Scanner line splitting (lines below 64 KiB), easyjson's jlexer for arp.ScanResult as the RFC 8259 reader of Spec/Json plus the decoder loop (string-typed ip/mac/vendor, null skipped, unknown keys skipped, repeated key overwrites) — Model/ArpCache.lean; validated on every run through the real ARP processor, encoder, FillCache and cache request generator",
             "other IPv6 text in a cache file and 8/20-byte MACs are outside the model (never printed by the ARP scan); jlexer's leniency on malformed JSON (e.g. trailing commas) is not modelled: the harness's malformed lines are non-objects and truncated objects",
@@ -334,7 +334,7 @@ PROPS = {
     },
     "C03": {
         "modules": ["SxVerif.Props.C03"],
-        "components": ["bpf", "proc"],
+        "components": ["bpf", "proc", "recv"],
         "trusted_base": [
             "modelled, not verified: libpcap's filter compiler + the BPF interpreter, as the denotation Model/Bpf.lean gives to exactly the expressions tcp.BPFFilter / tcp.SYNACKBPFFilter / icmp.BPFFilter / arp.BPFFilter can produce, on DLT_EN10MB and DLT_IPV4 (three-valued: an out-of-range load rejects; IPv6 branches of `tcp` and `src portrange`; fragment test on the offset only; /0 drops the dead address load; swapped port bounds). Validated on every run by compiling the REAL filter strings with the real libpcap for the link type sx opens and executing the program in golang.org/x/net/bpf's VM on the same frames; the kernel's own interpreter and its truncation of delivered frames to the snap length (1518 / 64 bytes, beyond every header the processors read) are not exercised",
             "modelled, not verified: gopacket decoders and DecodingLayerParser loop (Model/Frame.lean, shared with C06), validated by component proc and again inside component bpf",
